@@ -46,3 +46,38 @@ NOREPLY_CONSTANT = {"set": True, "add": True, "replace": True, "append": True, "
 NOREPLY_DEFAULT_NONE = ("set", "add", "replace", "append", "prepend", "set_many", "delete", "delete_many", "touch", "flush_all")
 NOREPLY_DEFAULT_FALSE = ("cas", "incr", "decr")
 EXPECT_CAS = {"get": False, "get_many": False, "gat": False, "gets": True, "gets_many": True, "gats": True, "stats": False, "cache_memlimit": False}
+
+# a valid beginning of a multi-line / multi-command reply, used to place an error line at a later position
+VALID_FIRST_REPLY = {
+    "get": (b"VALUE k1 0 3", b"abc"), "gat": (b"VALUE k1 0 3", b"abc"), "get_many": (b"VALUE k1 0 3", b"abc"),
+    "gets": (b"VALUE k1 0 3 7", b"abc"), "gats": (b"VALUE k1 0 3 7", b"abc"), "gets_many": (b"VALUE k1 0 3 7", b"abc"),
+    "delete_many": (b"DELETED",), "set_many": (b"STORED",), "stats": (b"STAT pid 1",),
+}
+
+# The reply the protocol defines for the commands of one call: (number of symbolic keys K1..Kn, reply items).  A reply
+# item is a line, the data block following a VALUE line, or CLOSE (the server closes the connection).
+CLOSE = ("close",)
+_V1, _V2, _V1C, _V2C, _D = b"VALUE k1 0 3", b"VALUE k2 0 3", b"VALUE k1 0 3 7", b"VALUE k2 0 3 9", b"abc"
+CALL_SCRIPTS = {
+    "get": [(1, (b"END",)), (1, (_V1, _D, b"END"))],
+    "gat": [(1, (b"END",)), (1, (_V1, _D, b"END"))],
+    "gets": [(1, (b"END",)), (1, (_V1C, _D, b"END"))],
+    "gats": [(1, (b"END",)), (1, (_V1C, _D, b"END"))],
+    "get_many": [(0, ()), (1, (_V1, _D, b"END")), (2, (b"END",)), (2, (_V2, _D, b"END")), (2, (_V2, _D, _V1, _D, b"END"))],
+    "gets_many": [(0, ()), (1, (_V1C, _D, b"END")), (2, (b"END",)), (2, (_V2C, _D, b"END")), (2, (_V2C, _D, _V1C, _D, b"END"))],
+    "set_many": [(0, ()), (1, (b"STORED",)), (2, (b"STORED", b"NOT_STORED")), (2, (b"NOT_STORED", b"STORED"))],
+    "delete": [(1, (b"DELETED",)), (1, (b"NOT_FOUND",))],
+    "delete_many": [(0, ()), (1, (b"DELETED",)), (2, (b"DELETED", b"NOT_FOUND"))],
+    "touch": [(1, (b"TOUCHED",)), (1, (b"NOT_FOUND",))],
+    "incr": [(1, (b"5",)), (1, (b"NOT_FOUND",))],
+    "decr": [(1, (b"5",)), (1, (b"NOT_FOUND",))],
+    "flush_all": [(0, (b"OK",))],
+    "version": [(0, (b"VERSION 1.6.21",))],
+    "stats": [(0, (b"END",)), (0, (b"STAT pid 1", b"STAT uptime 2", b"END"))],
+    "cache_memlimit": [(0, (b"OK",))],
+    "shutdown": [(0, (CLOSE,))],
+    "raw_command": [(0, (b"OK",))],
+    "quit": [(0, ())],
+}
+for _v in STORE_VERBS + ("cas",):
+    CALL_SCRIPTS[_v] = [(1, (r,)) for r in STORE_REPLIES[_v]]
